@@ -257,7 +257,7 @@ ClientUnwind(t) ==
   /\ LET x == Reg(K, t)
          d == Depth(K, t)
          tag == K.S[t][d].tag
-         ending == Top(K, t).b.ending /\ ~IsExc(x)
+         ending == Top(K, t).b.ending      \* once the script has ended the task only leaves its blocks
          next(out) == IF IsExc(out) THEN "unwind" ELSE IF ending THEN "unwind" ELSE "choose"
      IN
      IF d = 1
